@@ -130,12 +130,18 @@ TickT(p, k) ==
   IN R(b.p, a.out \o b.out)
 RECURSIVE TickTs(_, _, _)
 TickTs(p, k, out) == IF k > NT THEN R(p, out) ELSE LET t == TickT(p, k) IN TickTs(t.p, k + 1, out \o t.out)
+\* heartbeat producer (C10: "no NMT state change, PDO or SYNC reconfiguration or other timer activity shifts, duplicates
+\* or suppresses a heartbeat"): hbT = 1017h in ticks (0 = off), hbRem = ticks until the next heartbeat
+HbFrame(p) == <<"tx", 1792 + NodeId, 1, IF p.mode = OPER THEN 5 ELSE IF p.mode = STOP THEN 4 ELSE 127>>
 Tick(p) ==
   LET a == IF p.mode = OPER THEN TickTs(p, 1, <<>>) ELSE R(p, <<>>)
       s == IF a.p.sprod = 0 THEN R(a.p, <<>>)
            ELSE IF a.p.sprod > 1 THEN R([a.p EXCEPT !.sprod = @ - 1], <<>>)
            ELSE R([a.p EXCEPT !.sprod = a.p.scyc], IF SyncOK(a.p.mode) THEN <<SyncFrame(a.p)>> ELSE <<>>)
-  IN R(s.p, a.out \o s.out)
+      h == IF s.p.hbRem = 0 THEN R(s.p, <<>>)
+           ELSE IF s.p.hbRem > 1 THEN R([s.p EXCEPT !.hbRem = @ - 1], <<>>)
+           ELSE R([s.p EXCEPT !.hbRem = s.p.hbT], <<HbFrame(s.p)>>)
+  IN R(h.p, a.out \o s.out \o h.out)
 
 \* ---- object writes through SDO (expedited) --------------------------------------------------
 A_RANGE == <<48, 0, 9, 6>>    A_MAP == <<65, 0, 4, 6>>    A_MAPLEN == <<66, 0, 4, 6>>    A_ANY == <<-1, -1, -1, -1>>
